@@ -383,14 +383,48 @@ func H_C04_acceptor() {
 		n++
 		h.HandleIncoming(AllMsgTypes, func(d []byte) bool {
 			sd.got = append(sd.got, d)
+			if zz.Param(4) == 1 {
+				// the application answers every inbound message from inside its callback
+				r := tinyMsg('R', []byte{byte('a' + len(sd.got)%26), 'x'})
+				sd.sent = append(sd.sent, r)
+				_ = h.SendRaw(r)
+			}
 			return true
 		})
+		if zz.Param(4) == 1 {
+			return
+		}
 		m := tinyMsg('D', zz.Bytes(2))
 		sd.sent = append(sd.sent, m)
 		zz.Go(func() { _ = h.SendRaw(m) })
 	})
+	if zz.Param(4) == 1 {
+		zz.PreemptionBound(zz.Param(5))
+		zz.CoarseSchedules(true)
+		zz.PickRotation(zz.Param(6))
+		zz.ExploreSchedules(true)
+	}
 	acc.size = zz.Param(3)
 	zz.Go(func() { acc.serve(acc.ctx, a.sc); a.ended = true })
+	if zz.Param(4) == 1 {
+		// one connection only: with schedules explored the order in which two connections reach
+		// the new-client callback is not fixed, and the callback cannot tell them apart
+		zz.Yield()
+		zz.ExploreSchedules(false)
+		zz.Reach("quiescent")
+		zz.Assert(len(a.got) == len(a.msgs), "C04: the handler did not receive every message although it answers each one (hand-off between reader, handler and writer stuck?)")
+		for i := range a.got {
+			zz.Assert(zz.EqBytes(a.got[i], a.msgs[i]), "C04: a handler received a message that is not byte-identical / in order")
+		}
+		zz.Assert(len(a.sc.writes) == len(a.sent), "C04: the answers did not all reach the socket")
+		for i := range a.sc.writes {
+			zz.Assert(zz.EqBytes(a.sc.writes[i], a.sent[i]), "C04: answers written out of order or not whole")
+		}
+		close(a.sc.gate)
+		zz.WaitAll()
+		zz.Assert(zz.And(a.ended, a.sc.closed), "C04: connection not torn down")
+		return
+	}
 	zz.Go(func() { acc.serve(acc.ctx, b.sc); b.ended = true })
 	zz.Yield()
 	zz.Reach("quiescent")
